@@ -40,6 +40,7 @@ type row struct {
 	Era      string   `json:"era"`
 	Mut      string   `json:"mut"`
 	Target   string   `json:"target"`
+	Config   string   `json:"config"` // skip | default | ssc_hash
 	Validate bool     `json:"validate"`
 	DecodeOk bool     `json:"decode_ok"`
 	Failing  []string `json:"failing"`
@@ -469,13 +470,24 @@ func synthDijkstra(repo string, base *fixture) (*fixture, error) {
 
 // ---------------------------------------------------------------- decoding
 
-func decode(f *fixture, b []byte, validate bool) (err error, panicked any) {
+// verifyConfig is the caller's VerifyConfig of a configuration of the model.
+func verifyConfig(config string) common.VerifyConfig {
+	switch config {
+	case "skip":
+		return common.VerifyConfig{SkipBodyHashValidation: true}
+	case "ssc_hash":
+		return common.VerifyConfig{EnableByronSscProofHashValidation: true}
+	}
+	return common.VerifyConfig{}
+}
+
+func decode(f *fixture, b []byte, config string) (err error, panicked any) {
 	defer func() {
 		if p := recover(); p != nil {
 			panicked = p
 		}
 	}()
-	_, err = ledger.NewBlockFromCbor(f.btype, b, common.VerifyConfig{SkipBodyHashValidation: !validate})
+	_, err = ledger.NewBlockFromCbor(f.btype, b, verifyConfig(config))
 	return err, nil
 }
 
@@ -802,6 +814,7 @@ func main() {
 		Target  string `json:"target"`
 		Op      string `json:"op"`
 		Block   string `json:"block_cbor"`
+		Config  string `json:"config"`
 		Seed    int64  `json:"seed"`
 	}
 	if mode == "replay" {
@@ -877,7 +890,7 @@ func main() {
 		sf, err := synthDijkstra(repo, f)
 		if err != nil {
 			synthNote = "not built: " + err.Error()
-		} else if e, p := decode(sf, sf.raw, false); e != nil || p != nil {
+		} else if e, p := decode(sf, sf.raw, "skip"); e != nil || p != nil {
 			synthNote = fmt.Sprintf("not used: does not decode without validation (%v %v)", e, p)
 		} else {
 			synthNote = "real Dijkstra block + the repository's real Dijkstra transaction, header body hash recomputed by the driver"
@@ -914,7 +927,7 @@ func main() {
 			if a.Target != b.Target {
 				return a.Target < b.Target
 			}
-			return !a.Validate && b.Validate
+			return a.Config < b.Config
 		})
 	}
 
@@ -949,10 +962,10 @@ func main() {
 			if r.Mut != "none" {
 				continue
 			}
-			key := fmt.Sprintf("blk=%s:mut=none:validate=%v", f.name, r.Validate)
+			key := fmt.Sprintf("blk=%s:mut=none:cfg=%s", f.name, r.Config)
 			rep.Case(key, true)
-			e, p := decode(f, f.raw, r.Validate)
-			replay := map[string]any{"fixture": f.path, "validate": r.Validate, "spec_decode_ok": r.DecodeOk}
+			e, p := decode(f, f.raw, r.Config)
+			replay := map[string]any{"fixture": f.path, "config": r.Config, "spec_decode_ok": r.DecodeOk}
 			if p != nil {
 				rep.Disagree("panic:"+key, fmt.Sprintf("panic decoding the unmutated block: %v", p), replay)
 				continue
@@ -997,8 +1010,17 @@ func main() {
 			if r.Mut == "none" || !r.Validate {
 				continue
 			}
-			if mode == "replay" && (r.Mut != rp.Mut || r.Target != rp.Target) {
+			if mode == "replay" && (r.Mut != rp.Mut || r.Target != rp.Target || (rp.Config != "" && r.Config != rp.Config)) {
 				continue
+			}
+			// the second validating configuration changes nothing outside Byron:
+			// a quarter of the byte budget there
+			byteBudget, cfgTag := byteBudget, ""
+			if r.Config != "default" {
+				cfgTag = ":cfg=" + r.Config
+				if f.kind != "byron_main" {
+					byteBudget /= 4
+				}
 			}
 			var cands []mutant
 			switch r.Mut {
@@ -1065,8 +1087,8 @@ func main() {
 			default:
 				rep.Dead("unknown mutation class %q", r.Mut)
 			}
-			class := fmt.Sprintf("%s:mut=%s:target=%s", f.kind, r.Mut, r.Target)
-			fclass := f.name + ":" + r.Mut + ":" + r.Target
+			class := fmt.Sprintf("%s:mut=%s:target=%s%s", f.kind, r.Mut, r.Target, cfgTag)
+			fclass := f.name + ":" + r.Mut + ":" + r.Target + cfgTag
 			if mode == "replay" && rp.Block != "" {
 				// the recorded block itself, whatever the seed
 				b, err := hex.DecodeString(rp.Block)
@@ -1091,7 +1113,7 @@ func main() {
 					s = st(stats, class)
 				}
 				s.Tried++
-				e0, p0 := decode(f, m.b, false)
+				e0, p0 := decode(f, m.b, "skip")
 				if p0 != nil {
 					panicsOff++
 					continue
@@ -1101,11 +1123,11 @@ func main() {
 				}
 				s.Decodable++
 				perFixture[f.name]++
-				key := fmt.Sprintf("blk=%s:mut=%s:target=%s:op=%s", f.name, r.Mut, r.Target, m.op)
-				e1, p1 := decode(f, m.b, true)
+				key := fmt.Sprintf("blk=%s:mut=%s:target=%s:op=%s%s", f.name, r.Mut, r.Target, m.op, cfgTag)
+				e1, p1 := decode(f, m.b, r.Config)
 				replay := map[string]any{
 					"fixture": f.path, "era": f.kind, "mut": r.Mut, "target": r.Target, "op": m.op,
-					"spec_decode_ok": r.DecodeOk, "spec_failing": r.Failing, "seed": seed,
+					"spec_decode_ok": r.DecodeOk, "spec_failing": r.Failing, "seed": seed, "config": r.Config,
 				}
 				if len(m.b) <= 40000 {
 					replay["block_cbor"] = hex.EncodeToString(m.b)
@@ -1140,8 +1162,8 @@ func main() {
 					if e1 != nil {
 						got = "fails: " + e1.Error()
 					}
-					rep.Disagree(key, fmt.Sprintf("%s block %s with %s mutated (%s) decodes without validation; with validation the specification says decode_ok=%v (commitments %v), the code %s",
-						f.kind, f.name, r.Target, m.op, r.DecodeOk, r.Failing, got), replay)
+					rep.Disagree(key, fmt.Sprintf("%s block %s with %s mutated (%s) decodes without validation; with validation (config %s) the specification says decode_ok=%v (commitments %v), the code %s",
+						f.kind, f.name, r.Target, m.op, r.Config, r.DecodeOk, r.Failing, got), replay)
 				} else if !sampled[fclass] && e1 != nil && (len(sampled) < 3 || r.Mut != "commit") {
 					sampled[fclass] = true
 					msg := e1.Error()
